@@ -19,6 +19,14 @@ fn opt(v: Option<usize>) -> String {
     }
 }
 
+/// usable capacity of the chosen bucket count according to the real `bucket_mask_to_capacity`
+fn capm(v: Option<usize>) -> String {
+    match v {
+        Some(b) if b > 0 => hv::bucket_mask_to_capacity(b - 1).to_string(),
+        _ => "0".to_string(),
+    }
+}
+
 pub fn run(out: &str, seed: u64, args: &[String]) -> i32 {
     let scan_bits: u32 = args.first().and_then(|s| s.parse().ok()).unwrap_or(24);
     let window: usize = args.get(1).and_then(|s| s.parse().ok()).unwrap_or(64);
@@ -40,13 +48,13 @@ pub fn run(out: &str, seed: u64, args: &[String]) -> i32 {
         while cap <= hi {
             let x = hv::capacity_to_buckets(cap, size, w);
             if x != v {
-                writeln!(f, "{{\"f\":\"c2b\",\"size\":{},\"a\":\"{}\",\"b\":\"{}\",\"v\":\"{}\"}}", size, a, cap - 1, opt(v)).unwrap();
+                writeln!(f, "{{\"f\":\"c2b\",\"size\":{},\"a\":\"{}\",\"b\":\"{}\",\"v\":\"{}\",\"cm\":\"{}\"}}", size, a, cap - 1, opt(v), capm(v)).unwrap();
                 a = cap;
                 v = x;
             }
             cap += 1;
         }
-        writeln!(f, "{{\"f\":\"c2b\",\"size\":{},\"a\":\"{}\",\"b\":\"{}\",\"v\":\"{}\"}}", size, a, hi, opt(v)).unwrap();
+        writeln!(f, "{{\"f\":\"c2b\",\"size\":{},\"a\":\"{}\",\"b\":\"{}\",\"v\":\"{}\",\"cm\":\"{}\"}}", size, a, hi, opt(v), capm(v)).unwrap();
         // (2) windows around every 2^k and 7/8 * 2^k above the scanned range, up to usize::MAX
         for k in scan_bits..64 {
             for centre in [1usize << k, ((1u128 << k) * 7 / 8) as usize, if k == 63 { usize::MAX - window } else { 1usize << k }] {
@@ -62,12 +70,12 @@ pub fn run(out: &str, seed: u64, args: &[String]) -> i32 {
                     c += 1;
                     let x = hv::capacity_to_buckets(c, size, w);
                     if x != v {
-                        writeln!(f, "{{\"f\":\"c2b\",\"size\":{},\"a\":\"{}\",\"b\":\"{}\",\"v\":\"{}\"}}", size, a, c - 1, opt(v)).unwrap();
+                        writeln!(f, "{{\"f\":\"c2b\",\"size\":{},\"a\":\"{}\",\"b\":\"{}\",\"v\":\"{}\",\"cm\":\"{}\"}}", size, a, c - 1, opt(v), capm(v)).unwrap();
                         a = c;
                         v = x;
                     }
                 }
-                writeln!(f, "{{\"f\":\"c2b\",\"size\":{},\"a\":\"{}\",\"b\":\"{}\",\"v\":\"{}\"}}", size, a, hi2, opt(v)).unwrap();
+                writeln!(f, "{{\"f\":\"c2b\",\"size\":{},\"a\":\"{}\",\"b\":\"{}\",\"v\":\"{}\",\"cm\":\"{}\"}}", size, a, hi2, opt(v), capm(v)).unwrap();
             }
         }
     }
